@@ -701,9 +701,8 @@ STREAMS['conv_transpose'] = (gen_conv_transpose, run_conv_transpose, _conv_nontr
 def gen_embed(rng):
   xdt, pdt, dt = pick_dtypes(rng, 0.3)
   num = rng.choice([1, 2, 3, 4, 5, 6])
-  # a 0-d index with a one-row table is excluded: "broadcast the embedding matrix to input shape + features" is not defined there
   return dict(num=num, features=rng.randint(1, 5),
-              idx_shape=tuple(rng.randint(1, 3) for _ in range(rng.randint(1 if num == 1 else 0, 3))),
+              idx_shape=tuple(rng.randint(1, 3) for _ in range(rng.randint(0, 3))),
               idx_dtype=rng.choice(['int32', 'int32', 'int8', 'uint8', 'int16', 'uint32']), qbatch=batch_shape(rng),
               xdt=xdt, pdt=pdt, dt=dt)
 
